@@ -78,8 +78,7 @@ def sites(ctx, f, mirrors, entry_adt, entry_accessors):
                     site["subfield"] = fl[-1] if fl else None
                 elif passed:
                     site["op"] = "index_mut->passed"
-                    site["passed_to"] = passed[0].name
-                    site["node"] = ("t", passed[0].bb)
+                    site["node"] = ("t", passed[0])
             out.append(site)
     # (2) entry accessors handing out &mut DirEntry
     for bb, c in v.calls.items():
@@ -92,6 +91,8 @@ def sites(ctx, f, mirrors, entry_adt, entry_accessors):
                 fl = [e["name"] for e in st[2]["place"]["proj"] if e["p"] == "field"]
                 out.append({"node": ("s", st[0], st[1]), "field": "Directory.dir_entries", "op": "entry-store", "subfield": fl[-1] if fl else None,
                             "value": pr._def((st[0], st[1], st[2]), 0, ()), "index": idx, "span": st[2]["span"]})
+            for pb in passed:
+                out.append({"node": ("t", pb), "field": "Directory.dir_entries", "op": "index_mut->passed", "value": None, "index": idx, "span": f.blocks[pb]["term"]["span"]})
     return out
 
 
@@ -107,6 +108,12 @@ def _stores_through(f, ref_local):
         for i, st in enumerate(blk["stmts"]):
             if st["s"] == "assign" and st["place"]["local"] in refs and any(e["p"] == "deref" for e in st["place"]["proj"]):
                 stores.append((bb, i, st))
+        t = blk["term"]
+        if t["t"] == "call" and bb != -1:
+            if any(a["k"] in ("copy", "move") and a["place"]["local"] in refs and a["place"]["local"] != ref_local for a in t["args"]):
+                nm = t.get("callee_name") or ""
+                if nm in ("call_once", "call_mut", "call"):
+                    passed.append(bb)
     return stores, passed
 
 
